@@ -255,10 +255,22 @@ func runCheck(o *checkOpts) int {
 	}
 	var queue []item
 	seen := map[string]bool{}
+	var ungenerated []*Obligation
+	notFound := func(v, how string) {
+		// a function the property's proof rests on is gone (renamed, removed, merged): its
+		// obligations cannot be rebuilt on this tree; reported as a failed obligation.
+		msg := fmt.Sprintf("bind-error: function %q%s not found (renamed or removed?)", v, how)
+		fmt.Fprintln(os.Stderr, msg)
+		ungenerated = append(ungenerated, &Obligation{
+			Name: v + "#generate[function not found]", Kind: "bind", Func: v,
+			Clause: msg, Goal: "false", Verdict: "undecided", Backend: "none", Output: msg,
+		})
+	}
 	for _, v := range plan.Verify {
 		fn := prog.FindFunc(v)
 		if fn == nil {
-			return toolErr("bind-error: function %q not found (renamed or removed?)", v)
+			notFound(v, "")
+			continue
 		}
 		if !seen[FuncName(fn)] {
 			seen[FuncName(fn)] = true
@@ -268,7 +280,8 @@ func runCheck(o *checkOpts) int {
 	for v := range plan.Elsewhere {
 		fn := prog.FindFunc(v)
 		if fn == nil {
-			return toolErr("bind-error: function %q (elsewhere) not found (renamed or removed?)", v)
+			notFound(v, " (elsewhere)")
+			continue
 		}
 		seen[FuncName(fn)] = true
 	}
@@ -277,11 +290,25 @@ func runCheck(o *checkOpts) int {
 		it := queue[i]
 		fc := eng.contractFor(it.fn)
 		r := eng.VerifyFunc(it.fn, fc)
-		if o.only == "" || strings.Contains(it.name, o.only) {
+		if r.Bailed == "" && (o.only == "" || strings.Contains(it.name, o.only)) {
 			results = append(results, r)
 		}
 		if r.Bailed != "" {
-			return toolErr("cannot generate VCs for %s: %s", it.name, r.Bailed)
+			// The contract no longer binds to the function (a clause names something the code
+			// does not have any more, an anchored call is gone) or the body left the modelled
+			// subset: the proof of this function cannot be rebuilt on this tree. Reported as a
+			// failed obligation of its own (undecided: no input), not as a crash of the check.
+			fmt.Fprintf(os.Stderr, "cannot generate VCs for %s: %s\n", it.name, r.Bailed)
+			reason := r.Bailed
+			if len(reason) > 100 {
+				reason = reason[:100]
+			}
+			ungenerated = append(ungenerated, &Obligation{
+				Name: shortFuncName(it.name) + "#generate[" + reason + "]", Kind: "bind", Func: it.name,
+				Clause: r.Bailed, Goal: "false", Verdict: "undecided", Backend: "none",
+				Output: "verification conditions of " + it.name + " could not be generated: " + r.Bailed,
+			})
+			continue
 		}
 		var used []string
 		for u := range r.Used {
@@ -311,6 +338,7 @@ func runCheck(o *checkOpts) int {
 	if lemmaCtx != nil {
 		all = append(all, lemmaCtx.Oblig...)
 	}
+	all = append(all, ungenerated...)
 	if len(all) == 0 {
 		return toolErr("no obligations generated (vacuous check)")
 	}
@@ -339,6 +367,9 @@ func runCheck(o *checkOpts) int {
 			ob.Verdict, ob.Backend = "unsat", "trivial"
 			continue
 		}
+		if ob.Kind == "bind" {
+			continue
+		}
 		wg.Add(1)
 		sem <- struct{}{}
 		go func(ob *Obligation) {
@@ -361,8 +392,10 @@ func runCheck(o *checkOpts) int {
 		}
 	}
 	for _, ob := range all {
-		if ob.Verdict == "error" {
-			return toolErr("solver rejected the script of %s: %s", ob.Name, firstLines(ob.Output, 2))
+		if ob.Verdict == "error" && !ob.ExpectFail {
+			// every solver rejected the script (typically a clause whose types no longer fit the
+			// code): the obligation is undecided on this tree and is reported as failed below.
+			fmt.Fprintf(os.Stderr, "solver rejected the script of %s: %s\n", ob.Name, firstLines(ob.Output, 2))
 		}
 	}
 	var failing, vacuous []*Obligation
@@ -453,7 +486,7 @@ func runCheck(o *checkOpts) int {
 			"model": ob.Model,
 		}
 		for _, r := range results {
-			if r.Name == ob.Func {
+			if r.Name == ob.Func && ob.Kind != "bind" && ob.Verdict != "error" {
 				ob.FindModel(tmp, r.ModelVars)
 			}
 		}
